@@ -16,14 +16,20 @@ def fresh_classes():
     from edgegraph.structure import singleton as sg
     sg.clear_true_singleton()
 
-    created = []           # every instance whose __init__ got past its checks, in that order (= the model's numbering)
+    import weakref
+    created = []           # weak references to every instance whose __init__ got past its checks, in that order (= the
+                           # model's numbering).  WEAK: client code does not keep every instance it ever got either
+                           # (Cls(k).x = 1; ... Cls(k).x) - keeping them alive is the registry's job
+    keep = {"numbers": set(), "held": []}       # instances a later event names explicitly are held like a client would
 
     class Rec:
         def __init__(self, *args, **kwargs):
             if args and args[0] == 13:
                 raise ValueError("unlucky argument")         # a construction that fails
-            if not any(x is self for x in created):
-                created.append(self)
+            if not any(x() is self for x in created):
+                created.append(weakref.ref(self))
+                if len(created) in keep["numbers"]:
+                    keep["held"].append(self)
             d = self.__dict__
             d["inits"] = d.get("inits", 0) + 1
             d.setdefault("first", (args, dict(kwargs)))
@@ -59,7 +65,7 @@ def fresh_classes():
     class SD(Rec, metaclass=M2):
         pass
 
-    return {"t": [None, TA, TB, TC], "s": [None, SA, SB, SC, SD], "created": created}
+    return {"t": [None, TA, TB, TC], "s": [None, SA, SB, SC, SD], "created": created, "keep": keep}
 
 
 def arg_id(first):
@@ -78,7 +84,9 @@ def replay(events, NI):
     from edgegraph.structure import singleton as sg
     import signal
     C = fresh_classes()
-    objs = C["created"]          # instance number -> object (order of creation, nested constructions included)
+    objs = C["created"]          # instance number -> weak reference (order of creation, nested constructions included)
+    C["keep"]["numbers"].update(c["a"][0] for c in events if c["op"] == "sadd")
+    shadow = {}                  # instance number -> (inits, first) as last seen alive
 
     class Hang(Exception):
         pass
@@ -91,9 +99,10 @@ def replay(events, NI):
         if o is None:
             return 0
         for j, x in enumerate(objs):
-            if x is o:
+            if x() is o:
                 return j + 1
-        objs.append(o)
+        import weakref
+        objs.append(weakref.ref(o))
         return len(objs)
 
     def cls_of(o):
@@ -122,7 +131,7 @@ def replay(events, NI):
                 r = C["s"][a[0]](*args, **kw)
             elif op == "sadd":
                 args, kw = ARGS[a[1]]
-                sg.add_mapping(objs[a[0] - 1], *args, **kw)
+                sg.add_mapping(objs[a[0] - 1](), *args, **kw)
             elif op == "sdrop":
                 args, kw = ARGS[a[1]]
                 sg.drop_semi_singleton_mapping(C["s"][a[0]], *args, **kw)
@@ -144,11 +153,15 @@ def replay(events, NI):
                 _HANGS[0] += 1
         finally:
             signal.alarm(0)
+        r = None                    # the caller lets go of what it got
         inits = [0] * NI
         args_ = [0] * NI
-        for j, o in enumerate(objs[:NI]):
-            inits[j] = getattr(o, "inits", 0)
-            args_[j] = arg_id(getattr(o, "first", ((), {})))
+        for j, ref in enumerate(objs[:NI]):
+            o = ref()
+            if o is not None:
+                shadow[j] = (getattr(o, "inits", 0), arg_id(getattr(o, "first", ((), {}))))
+            o = None
+            inits[j], args_[j] = shadow.get(j, (0, 0))
         out.append({"c": c, "res": res, "inits": inits, "args": args_, "extra_objects": max(0, len(objs) - NI)})
         if res["err"] == "Hang":
             break               # whatever was blocked may still hold its lock: nothing after this point is meaningful
